@@ -107,3 +107,11 @@ def validate_trace(module, cfg_text, tag, trace_path, timeout=600, env=None, hea
     r["clean"] = r["accepted"] and not r["bad"]
     r["hard_errors"] = hard
     return r
+
+
+def replays(out_text):
+    """Behaviours printed by a spec as <<"REPLAY", ToJson(..)>> (one per line or wrapped)."""
+    res = []
+    for m in re.finditer(r'<<\s*"REPLAY",\s*("(?:[^"\\]|\\.)*")\s*>>', out_text):
+        res.append(json.loads(json.loads(m.group(1))))
+    return res
